@@ -179,6 +179,8 @@ impl<'a> Serializable<'a> for MultiPlexedRecord<'a> {
                 position,
                 records: MultiRecord::new(payload).ok()?,
             }),
+            // Truncating up to u64::MAX would move the queue past the last representable position.
+            RecordType::Truncate if position == u64::MAX => None,
             RecordType::Truncate => Some(MultiPlexedRecord::Truncate {
                 queue,
                 truncate_range: ..=position,
@@ -273,7 +275,8 @@ impl<'a> Iterator for MultiRecord<'a> {
 
         let buffer = &buffer[HEADER_LEN..];
 
-        if buffer.len() < len {
+        // The position following a record must be representable.
+        if position == u64::MAX || buffer.len() < len {
             self.byte_offset = buffer.len();
             return Some(Err(MultiRecordCorruption));
         }
